@@ -32,7 +32,7 @@ def explore(ck):
                '(every byte in the thorough tier); exit status, names and sizes in the dump folder are compared with the output-protocol model (OutProto.run with the 4 MB BufWriter capacity) '
                'and with the property: exit 0 => finals identical to the undisturbed run and no *.tmp; failure => no final-named file. (b) input faults at every height: blk file removed, emptied, '
                'truncated inside the magic, the size prefix, the header, a transaction; offset past EOF: non-zero exit, failing height reported, no final-named file. (c) crash points: SIGKILL / ENOSPC '
-               'injected with strace at the n-th write and rename on the dump files: every final-named file that exists is complete. Non-trivial: the fault lands strictly inside the output '
+               'injected with strace at the n-th write and at the n-th rename/link/copy_file_range/sendfile on the dump files, the dump folder pre-seeded with longer stale *.tmp files of an aborted run: every final-named file that exists is complete. Non-trivial: the fault lands strictly inside the output '
                '(0 < limit < total) or on an input byte of a processed block; distinct by (callback, fault).')
     # ---------- (a) write budget ----------
     chains = []
@@ -54,10 +54,14 @@ def explore(ck):
             tot = max(sizes[cb]); lims = {0, 1, 16, 35, tot - 1, tot, tot + 1, 4096}
             for s in sizes[cb]: lims |= {s - 1, s, s + 1}
             if quick: lims |= {r.randrange(1, tot) for _ in range(12)}
-            else: lims |= set(range(0, tot + 2)) if tot < 3000 else {r.randrange(1, tot) for _ in range(400)}
+            else: lims |= set(range(0, tot + 2)) if tot < 2500 else {r.randrange(1, tot) for _ in range(400)}
             lims = sorted(l for l in lims if l >= 0)
-            m = run.run_model(ck.tools, [c], ['limit:%s:%d' % (cb, L) for L in lims])[c.id]
             from concurrent.futures import ThreadPoolExecutor
+            # the model answers one limit at a time (it re-runs the output protocol on the whole byte stream): shard the limits over 16 model processes
+            shards = [lims[i::16] for i in range(16) if lims[i::16]]
+            with ThreadPoolExecutor(16) as ex: parts = list(ex.map(lambda ls: run.run_model(ck.tools, [c], ['limit:%s:%d' % (cb, L) for L in ls])[c.id], shards))
+            m = parts[0]
+            for p_ in parts[1:]: m['limit'].update(p_['limit'])
             def one(L): return L, run.run_impl(ck.tools, c, cb, preexec=limit_preexec(L))      # own data directory per run (LevelDB lock)
             with ThreadPoolExecutor(12) as ex: res = list(ex.map(one, lims))
             for L, rr in res:
@@ -84,10 +88,12 @@ def explore(ck):
                 if kind == 'enospc' and call == 'rename': continue
                 if quick and cb == 'csv' and n in (2, 3) and kind == 'kill' and call == 'write': continue
                 out = os.path.join(ck.tools.work, 'inj_%s_%s_%s_%d' % (c.id, cb, kind + call, n)); os.makedirs(out, exist_ok=True)
-                inj = 'inject=%s:%s:when=%d' % ('write' if call == 'write' else 'rename,renameat,renameat2', 'signal=SIGKILL' if kind == 'kill' else 'error=ENOSPC', n)
-                wrapper = ['strace', '-f', '-qq', '-o', '/dev/null', '-e', 'trace=' + ('write' if call == 'write' else 'rename,renameat,renameat2'), '-e', inj] + \
+                # "rename" stands for every call that can give a file its final name or move bytes towards it (a copy instead of a rename would use copy_file_range / sendfile / link)
+                calls = 'write,pwrite64,writev' if call == 'write' else 'rename,renameat,renameat2,link,linkat,copy_file_range,sendfile'
+                inj = 'inject=%s:%s:when=%d' % (calls, 'signal=SIGKILL' if kind == 'kill' else 'error=ENOSPC', n)
+                wrapper = ['strace', '-f', '-qq', '-o', '/dev/null', '-e', 'trace=' + calls, '-e', inj] + \
                           sum((['-P', os.path.join(out, s_ + '.csv.tmp')] for s_ in STEMS[cb]), [])
-                rr = run.run_impl(ck.tools, c, cb, datadir=dd, outdir=out, wrapper=wrapper)
+                rr = run.run_impl(ck.tools, c, cb, datadir=dd, outdir=out, wrapper=wrapper, prefill='stale')
                 ck.evaluated(); ck.count('injection runs:' + kind + '-' + call); ck.nontrivial((c.id, cb, kind, call, n))
                 finals = {nm: d for nm, d in rr.files.items() if not nm.endswith('.tmp')}
                 diffs = []
@@ -99,6 +105,27 @@ def explore(ck):
                 if diffs: ck.disagreement('%s with %s at %s #%d on %s' % (cb, kind, call, n, c.id), '\n'.join(diffs), c, in_domain=True, extra_replay='# inject %s %s %s %d' % (cb, kind, call, n))
                 shutil.rmtree(out, ignore_errors=True)
         shutil.rmtree(dd, ignore_errors=True)
+    # ---------- (a') thorough: outputs above the 4 MB BufWriter capacity, so that writes fail in the middle of the run (in on_block), not only in the final flush;
+    #      property-level predicates only (the extracted model is too slow on multi-megabyte byte lists) ----------
+    if not quick:
+        coin = 'bitcoin'; blocks = []; prev = b'\x00' * 32
+        for h in range(36):
+            txs = [coinbase_tx(h, [(1, b'\x51')])] + [Tx([(gen.rb(r, 32), 0, b'', 0)], [(k, gen.rb(r, 70)) for k in range(330)]) for _ in range(2)]
+            b = Block(prev, txs, time=1300000000 + h); blocks.append(b); prev = b.hash
+        big = Case('big10', coin).simple_layout(blocks)
+        clean_big = run.run_impl(ck.tools, big, 'csv')
+        sizes_big = sorted(len(d) for d in clean_big.files.values()); tot = sizes_big[-1]
+        ck.extra['big_output_sizes'] = sizes_big
+        if clean_big.rc != 0 or tot <= 4000000: ck.disagreement('big-output chain did not produce > 4 MB', str(sizes_big), big, in_domain=False)
+        for L in [1000000, 3999999, 4000000, 4000001, 4100000, tot - 1, tot, sizes_big[-2] + 1]:
+            rr = run.run_impl(ck.tools, big, 'csv', preexec=limit_preexec(L))
+            ck.evaluated(); ck.count('write-limit runs: > 4 MB output'); ck.nontrivial(('big', L))
+            finals = {n: d for n, d in rr.files.items() if not n.endswith('.tmp')}
+            bad = []
+            if rr.rc == 0 and (finals != clean_big.files or any(n.endswith('.tmp') for n in rr.files)): bad.append('exit 0 but output incomplete or tmp left')
+            if rr.rc != 0 and finals: bad.append('failure but final-named files exist: %s' % sorted(finals))
+            if (rr.rc == 0) != (L >= tot): bad.append('exit status %s with limit %d and largest file %d' % (rr.rc, L, tot))
+            if bad: ck.disagreement('csvdump with > 4 MB output under RLIMIT_FSIZE=%d' % L, '\n'.join(bad), big, in_domain=True, extra_replay='# limit csv %d' % L)
     # ---------- (b) input faults ----------
     cases = []
     for k in range(2 if quick else 8):
